@@ -326,6 +326,37 @@ HOLD_DIRECTED = [
 ]
 
 
+# The CA under the trust anchor rolls its key: its requests are queued at
+# the TA proxy, answered by the signer in one cycle and fetched one
+# synchronisation later; activation before the TA has published the new
+# key's certificate; products and children follow.
+TA_DIRECTED = [
+    {"theme": "taroll", "actions": [
+        _a("RoaAdd", c="A", r=["p1", "a1"]),
+        _a("AddCa", c="B", p="A", res=["p1"]), _a("Settle"),
+        _a("RollInit", c="A"), _a("Settle"),
+        _a("RollActivate", c="A"), _a("Settle"), _a("Settle")]},
+    {"theme": "taroll", "actions": [
+        _a("AddCa", c="B", p="A", res=["p1", "p2"]), _a("Settle"),
+        _a("RoaAdd", c="B", r=["p1", "a1"]), _a("Settle"),
+        _a("RollInit", c="A"),
+        _a("Step", task="sync_A_with_parent_ta"),
+        _a("RoaAdd", c="A", r=["p2", "a1"]),
+        _a("Step", task="sync_ta_proxy_signer"),
+        _a("RollInit", c="B"),
+        _a("Step", task="sync_A_with_parent_ta"),
+        _a("RollActivate", c="A"),
+        _a("Step", task="sync_repo_A"),
+        _a("Step", task="sync_B_with_parent_A"),
+        _a("Settle"),
+        _a("RollActivate", c="B"), _a("Settle"),
+        _a("RollInit", c="A"), _a("RollInit", c="A"), _a("Settle"),
+        _a("ChildRes", c="B", p="A", res=["p1"]),
+        _a("RollActivate", c="A"), _a("RollActivate", c="A"),
+        _a("Settle")]},
+]
+
+
 def clause(*names):
     out = []
     for n in names:
